@@ -44,7 +44,7 @@ def parse_model(line):
     if len(p) > 3:
         out.update(trips=p[3], indep=bool(p[4]), uncond=bool(p[5]),
                    conflict=(R.ALLVARS[p[6]] if p[6] >= 0 else None), exposed=(R.ALLVARS[p[7]] if p[7] >= 0 else None),
-                   serial=p[8], verdict=p[9])
+                   serial=p[8], verdict=p[9], static_indep=bool(p[10]), static_uncond=bool(p[11]))
     return out
 
 
@@ -219,6 +219,13 @@ def process(chk, res, findings, stats):
         stats["hyp"].get(f"indep={int(model['indep'])},uncond={int(model['uncond'])}", 0) + 1
     if model["verdict"][0] == "ok":
         stats["schedules"] += model["verdict"][1]
+    skey = f"static_indep={int(model['static_indep'])},static_uncond={int(model['static_uncond'])}"
+    stats["static"][skey] = stats["static"].get(skey, 0) + 1
+    # consistency of the driver with C09_static_indep / C09_static_uncond: static check => dynamic hypothesis
+    if (model["static_indep"] and not model["indep"]) or (model["static_uncond"] and not model["uncond"]):
+        ok = False
+        chk.correspondence_broken("driver contradicts C09_static_indep / C09_static_uncond", cdesc,
+                                  {k: model[k] for k in ("static_indep", "static_uncond", "indep", "uncond")}, "")
     bad, ev = failing(res)
     # consistency of the driver with C09_partial: hypotheses hold => the model must agree with serial
     if model["indep"] and model["uncond"] and model["verdict"][0] != "ok":
@@ -309,8 +316,12 @@ def run(chk):
                        "each through OMPParallelLoopTrans or OMPLoopTrans+OMPParallelTrans with schedule(runtime); "
                        "non-trivial = accepted without force and at least 2 iterations; distinct by loop text+mode+clauses")
     chk.assumptions += [
-        "OpenMP execution model = C09.execOMP: whole iterations are interleaved (justified for data-race-free "
-        "iterations; weak-memory effects and real thread timing are NOT exhibited by the model, only sampled by gfortran runs)",
+        "OpenMP execution model = C09.execOMP / C09.execOMPfine (sequentially consistent; threads interleave at the "
+        "granularity of the top-level statements of the body — theorem C09_race_free_iteration_atomic shows this gives the "
+        "same shared result as whole-iteration schedules, so iteration granularity is no longer assumed); weak-memory effects "
+        "and real thread timing are NOT exhibited by the model, only sampled by the gfortran runs",
+        "for accepted loops passing the static checks (staticIndepB, staticUncondB) the hypotheses of the theorem hold for "
+        "every store (C09_static); the driver reports both and the harness cross-checks static => per-input",
         "Fortran DO variables inside a parallel construct are private (OpenMP rule) whether or not listed",
         "schedule(runtime) is requested through the omp_schedule option so that OMP_SCHEDULE selects the schedule",
         "IterIndep (C08's guarantee) is a hypothesis of C09_partial; the check evaluates it per input with the driver",
@@ -321,12 +332,12 @@ def run(chk):
     ]
     chk.cov["trusted_base"] = ["Lean 4.33.0 kernel", "axioms propext/Classical.choice/Quot.sound only (audited)",
                                "MiniF semantics + PSyIR->MiniF exporter (harness/minif.py), cross-checked against gfortran serially on every accepted case",
-                               "C09.execOMP as the meaning of parallel do/private/firstprivate (iteration granularity)",
+                               "C09.execOMP/execOMPfine as the meaning of parallel do/private/firstprivate under sequential consistency (statement granularity)",
                                "gfortran 12 / libgomp as execution oracle"]
     chk.lean()
     findings = common.known_findings("C09")
     stats = {"status": {}, "tags": {}, "trips": {}, "hyp": {}, "schedules": 0, "gf_runs": 0, "gf_skipped": 0,
-             "violations": 0, "known_class": {}, "known_class_gfortran": {}, "history_cases": 0, "histories": [],
+             "violations": 0, "known_class": {}, "known_class_gfortran": {}, "history_cases": 0, "histories": [], "static": {},
              "options_mutations": 0}
     runner = Runner(reps=(6 if thorough else 2))
     gen = R.Gen(chk.rng)
